@@ -434,7 +434,7 @@ func (i *interpreter) RunPath(entry value, harness string, prefix []int32, wantS
 						res.Inconclusive = append(res.Inconclusive, fmt.Sprintf("finish: %v", r))
 					}
 				}()
-				ps.finish(wantSample)
+				ps.finish(wantSample && res.Ended == "" && len(res.Violations) == 0)
 			}()
 		} else {
 			res.Decisions = ps.dec
